@@ -212,8 +212,10 @@ def r5_observers(tree, rep):
     fn = tree.func(OBS, "SequenceObserver", "when_next_event")
     g = build(fn, split=True)
     err_tests = [n for n in g.nodes(lambda s: isinstance(s, ast.If)) if _mentions_self(g.stmt[n].test, "_error")]
-    pops = g.call_nodes(lambda c: isinstance(c.func, ast.Attribute) and c.func.attr in ("pop", "popleft")
-                        and is_self_attr(c.func.value, "_results"))
+    # where a reader is promised an event: a buffered result taken for it, or its Deferred queued for the pairing step
+    pops = g.call_nodes(lambda c: isinstance(c.func, ast.Attribute) and (
+        (c.func.attr in ("pop", "popleft") and is_self_attr(c.func.value, "_results"))
+        or (c.func.attr == "append" and is_self_attr(c.func.value, "_observers"))))
     from ..cfg import truthy_atom
     has_error = truthy_atom(lambda e: is_self_attr(e, "_error"))
     ok = bool(err_tests) and bool(pops)
